@@ -312,6 +312,11 @@ class BlackbirdProgram:
 
         kwargs = new_kwargs
 
+        # every free parameter needs a value, also one that is no longer used
+        # (e.g. because the variable that held it was declared again)
+        if not self.parameters <= set(kwargs):
+            raise ValueError("Invalid value for free parameter provided")
+
         def substitute(value):
             """Substitute the parameter values into the symbolic elements of a list or array."""
             if isinstance(value, list):
